@@ -6,7 +6,7 @@ the flattened path, the reported recycles and the nesting are compared with the 
 import itertools, random, warnings
 import thermosteam as tmo
 from thermosteam.network import Network, AbstractUnit, AbstractInlets, AbstractMissingStream
-from vt.core import case_hash
+from vt.core import case_hash, exc_key, exc_text
 
 PID = 'C19'
 RULE = ('random connected DAGs of 2-10 units with 1-3 inlets/outlets each, several feeds (real Streams with distinct mass flows) and products; every permutation of the unit list '
@@ -17,9 +17,15 @@ RULE = ('random connected DAGs of 2-10 units with 1-3 inlets/outlets each, sever
         'a connected sub-set of a larger flowsheet (acyclic-subset / cyclic-subset: cycles count only when they lie inside the given set), back-edges that are self-loops (cyclic-selfloop), '
         'inlet ports left unconnected (acyclic-/cyclic-missing-inlet; bare AbstractMissingStream and a missing-stream class that carries F_mass); every reported recycle must be a stream docked at a given unit. '
         'A one-shot iterator as unit collection is observed but not judged. '
+        'Cyclic cases additionally: every unit listed once; each reported recycle connects two units of the network it is reported for; the reported recycles cut every true cycle '
+        '(true graph minus recycles is acyclic); per network level the items follow the flow: nothing runs backward in a network without recycle; in a loop no backward stream other than its recycle(s) hands a value of the previous pass on around the recycle(s) (not judged when a unit is listed twice). '
+        'The structure of the true cycles (single-loop / disjoint-loops / nested-loops / interlocking-loops, from the case dict) is part of the keys of the loop-joining findings and the reach counter '
+        'struct:<class> is what their rates are taken over (the remaining orders of an exhaustive sweep count under sweep:struct:<class> and carry ":all-orders-of-one-graph" in those keys: one graph met up to 715 times); the recorded join_recycle_network raise keeps its key only with the recorded message on interlocking loops. '
         'non-trivial = >=3 units and (>=2 feeds or a branch or a cycle); distinct = hash of (graph, permutation)')
 MIN_NONTRIVIAL = {'quick': 500, 'thorough': 20000}
 ASSUMPTIONS = ['units are bare AbstractUnit subclasses using tmo.Stream (feed ranking reads F_mass)',
+               'cyclic flowsheets: "a path that contains exactly the given units" is read as each unit once (as stated for the acyclic case); a recycle is a stream between two units of its own loop network, and every true cycle carries a reported recycle',
+               'order inside a recycle loop (key order-inside-networks/...): a loop is iterated until its reported recycle(s) stand still, so where its path starts is free; demanded is only that a backward stream which is not a recycle of the loop is recomputed from the current recycle values (no value of the previous pass reaches its source around the recycles) - the reading of "follows material flow" under which the reported recycles are sufficient tear streams. The literal third sentence of the statement (any backward stream inside a common loop) is judged separately and unchanged',
                'a flowsheet built once is reused for the remaining orders of an exhaustive permutation sweep (from_units must leave the connections untouched; checked after each sweep)']
 
 
@@ -29,7 +35,9 @@ def required(tier):
             'perm:exhaustive-5', 'perm:exhaustive-6', 'form:tuple', 'form:dict-keys',
             'call:ends-products', 'call:ends-some-leaving', 'call:recycles-false', 'call:feedstock',
             'subset', 'subset:cyclic', 'self-loop', 'missing-inlet', 'missing-inlet:bare', 'variable-ports',
-            'recycle-is-flowsheet-stream']
+            'recycle-is-flowsheet-stream',
+            'struct:single-loop', 'struct:disjoint-loops', 'struct:nested-loops', 'struct:interlocking-loops', 'struct:interlocking-loops:3-back-edges', 'sweep:struct:interlocking-loops',
+            'cyclic:each-unit-once', 'recycle-inside-own-loop', 'cyclic:cycle-without-recycle', 'cyclic:order-inside-networks', 'cyclic:order-inside-networks:top-level-is-loop']
 
 
 class _MissingWithFlow(AbstractMissingStream):
@@ -142,6 +150,19 @@ def _has_cycle(nodes, pairs):
     succ = {k: set() for k in nodes}
     for a, b in pairs: succ[a].add(b)
     return any(a in _reach(succ, succ[a]) for a in nodes)
+
+
+def _acyclic(nodes, pairs):
+    """Kahn: True when the directed multigraph (nodes, pairs) has no cycle (a self-loop is a cycle)."""
+    indeg = {k: 0 for k in nodes}; succ = {k: [] for k in nodes}
+    for a, b in pairs: succ[a].append(b); indeg[b] += 1
+    st = [k for k, d in indeg.items() if not d]; done = 0
+    while st:
+        x = st.pop(); done += 1
+        for y in succ[x]:
+            indeg[y] -= 1
+            if not indeg[y]: st.append(y)
+    return done == len(indeg)
 
 
 def gen_graph_x(rng, cyclic, selfloop=False, p_missing=0.0):
@@ -329,6 +350,119 @@ def loops(net, acc=None):
     return acc
 
 
+def loop_networks(net, acc=None):
+    """every (sub)network that carries a recycle, as (network, list of its recycle streams)."""
+    if acc is None: acc = []
+    r = net.recycle
+    if r: acc.append((net, [r] if hasattr(r, 'sink') else list(r)))
+    for i in net.path:
+        if isinstance(i, Network): loop_networks(i, acc)
+    return acc
+
+
+# ---------------------------------------------------------------------------------------------------------------------
+# structure of the TRUE cycle system of the given units (from the case dict alone; nothing of the library is read).
+# It is the input class the recorded loop-joining findings belong to, so it is part of their keys and of the reach counter their rate is taken over:
+#   single-loop        one simple cycle (parallel streams between the same two units count once)
+#   disjoint-loops     several simple cycles, no two of them share a unit
+#   nested-loops       cycles share units, and whenever two do the units of one are a subset of the units of the other (inner / outer loop)
+#   interlocking-loops two cycles share units and neither contains the other
+
+def simple_cycles(nodes, pairs):
+    """unit sets (bit masks) of the simple cycles of a small directed graph (<= 10 nodes), self-loops included."""
+    order = sorted(nodes); bit = {k: 1 << i for i, k in enumerate(order)}
+    succ = {k: set() for k in nodes}
+    for a, b in pairs: succ[a].add(b)
+    found = set()
+    for s in order:      # cycles whose smallest unit is s
+        stack = [(s, bit[s])]
+        while stack:
+            x, mask = stack.pop()
+            for y in succ[x]:
+                if y == s: found.add(mask)
+                elif y > s and not (mask & bit[y]): stack.append((y, mask | bit[y]))
+    return found
+
+
+def structure_class(nodes, pairs):
+    cyc = sorted(simple_cycles(nodes, pairs))
+    if not cyc: return 'acyclic'
+    if len(cyc) == 1: return 'single-loop'
+    overlap = False
+    for i, a in enumerate(cyc):
+        for b in cyc[i + 1:]:
+            c = a & b
+            if c:
+                if c != a and c != b: return 'interlocking-loops'
+                overlap = True
+    return 'nested-loops' if overlap else 'disjoint-loops'
+
+
+_struct_cache = [None, None, None]
+
+
+def structure_of(g, given):
+    """structure class of the flowsheet induced on `given` (cached for the orders of one graph)."""
+    key = tuple(sorted(given))
+    if _struct_cache[0] is g and _struct_cache[1] == key: return _struct_cache[2]
+    gs = set(given)
+    st = structure_class(key, {(e[0], e[2]) for e in list(g['edges']) + list(g['back']) if e[0] in gs and e[2] in gs})
+    _struct_cache[:] = [g, key, st]
+    return st
+
+
+JOIN_MESSAGE = 'networks must have units in common to join'
+
+
+def order_inside_networks(net, edges, found):
+    """Per network level: the items of a path (units; a sub-network counts as one item) follow the material flow.  `edges` = true streams as (source unit, sink unit, id(stream)).
+    - a network WITHOUT recycle is run once: every stream between two different items runs forward;
+    - a network WITH recycle(s) is iterated until its recycle(s) stop changing.  A stream that runs backward delivers the value of the previous pass.  That is what a recycle is
+      for; any other backward stream is harmless only if its value is recomputed from the current recycle values, i.e. if no value of the previous pass reaches its source except
+      through a recycle of this network: otherwise the recycle(s) can stand still while the loop is not converged (a stale value is handed on from pass to pass), which is not an
+      order that follows the material flow around the reported recycle.  Test: from the items that receive a backward stream (recycle or not), walk the forward streams that are
+      not recycles of this network; no source of a backward non-recycle stream may be reached (the receiving item itself included).
+    Where the path of a loop starts is free under this reading (any rotation of a correct loop order passes), and so is the library's habit of reporting the single outlet of
+    the unit the backward streams enter in place of those streams.  Appends (level kind, text) to `found`; returns the units below `net`."""
+    items = net.path; n = len(items); where = {}; flat = []
+    for k, it in enumerate(items):
+        us = order_inside_networks(it, edges, found) if isinstance(it, Network) else [it]
+        for u in us: where.setdefault(u, k)
+        flat += us
+    r = net.recycle
+    own = set() if not r else ({id(r)} if hasattr(r, 'sink') else {id(x) for x in r})
+    fwd = [[] for _ in range(n)]; stale = [False] * n; back = []
+    for ua, ub, sid in edges:
+        pa = where.get(ua); pb = where.get(ub)
+        if pa is None or pb is None or pa == pb: continue
+        if pa < pb:
+            if sid not in own: fwd[pa].append(pb)
+        else:
+            stale[pb] = True
+            if sid not in own: back.append((pa, ua, ub))
+    if not back: return flat
+    names = [getattr(i, 'ID', '<network>') for i in items]
+    if not own:
+        found.append(('linear-level', f'a network without recycle lists {[(ua.ID, ub.ID) for _, ua, ub in back[:4]]} against the flow (items {names})'))
+        return flat
+    for k in range(n):       # forward streams only go up in position: one sweep
+        if stale[k]:
+            for m in fwd[k]: stale[m] = True
+    bad = [(ua.ID, ub.ID) for pa, ua, ub in back if stale[pa]]
+    if bad: found.append(('loop-level', f'in the loop {names} the backward stream(s) {bad[:4]} are not recycles of the loop and carry values of the previous pass that reach them around its recycle(s)'))
+    return flat
+
+
+def edges_from_units(units):
+    """true streams (source unit, sink unit, id(stream)) between the given live units, read from their outlet lists (for monitors that have no case dict, e.g. the ambient one)."""
+    inside = set(units); out = []
+    for u in units:
+        for s in u.outs:
+            k = getattr(s, 'sink', None)
+            if k is not None and k in inside: out.append((u, k, id(s)))
+    return out
+
+
 KIND_CLAUSE = {'subset': 'subset', 'self-loop': 'selfloop', 'missing-inlet': 'missing-inlet'}
 CALLS = ('ends-none', 'ends-empty', 'ends-products', 'ends-some-leaving', 'recycles-false', 'interaction-false', 'feedstock')
 
@@ -361,7 +495,10 @@ def run_case(case, rec, prebuilt=None):
     clause = 'cyclic' if cyclic else 'acyclic'
     if kind: clause += '-' + KIND_CLAUSE[kind]
     vt = variant_tag(case); deco = decoration(g)
-    fstreams = ()
+    fstreams = (); struct = None
+    # the remaining orders of an exhaustive sweep (up to 715 orders of ONE graph): a recorded finding met there is met hundreds of times at once, so those cases carry their own
+    # key part and reach counter, and the rate of a recorded finding over the ordinary cases (<= 24 orders per graph) stays a rate over graphs
+    swp = bool(case.get('sweep')); SW = ':all-orders-of-one-graph' if swp else ''
     with warnings.catch_warnings():
         warnings.simplefilter('ignore')
         try:
@@ -383,6 +520,13 @@ def run_case(case, rec, prebuilt=None):
             if g.get('var'): rec.hit('variable-ports')
             if form != 'list': rec.hit('form:' + form)
             if call != 'default': rec.hit('call:' + call)
+            if cyclic:
+                # input class of the case, from the case dict alone (before the call: a class that always raises is still a reached class); the rates of the recorded
+                # loop-joining findings are taken over these counters
+                struct = structure_of(g, perm)
+                if struct == 'acyclic': raise AssertionError('case marked cyclic but the induced graph has no cycle')
+                rec.hit(('sweep:' if swp else '') + 'struct:' + struct)
+                if struct == 'interlocking-loops' and len(g['back']) >= 3: rec.hit('struct:interlocking-loops:3-back-edges')
             if form == 'generator':
                 # from_units walks `units` twice (network.py from_units: set(units), then a list comprehension over units): a one-shot iterator
                 # is not a "unit list" (quantifier) — observed, counted, not judged
@@ -415,7 +559,18 @@ def run_case(case, rec, prebuilt=None):
             except Exception as e:
                 # exceptions are recorded under the statement's clause (cyclic / acyclic) for every graph kind: the key names the raising mechanism (exception type @ function),
                 # so a recorded mechanism met through an added graph kind is the same finding; the kind is named in the witness text
-                rec.exception('cyclic' if cyclic else 'acyclic', e, what=f'Network.from_units raised {type(e).__name__}: {str(e)[:150]} ({len(units)} units, {len(g["back"])} back-edges, graph kind {kind or "plain"}{vt and ", " + vt[1:]}){deco}')
+                what = f'Network.from_units raised {type(e).__name__}: {str(e)[:150]} ({len(units)} units, {len(g["back"])} back-edges, {struct if cyclic else "acyclic"}, graph kind {kind or "plain"}{vt and ", " + vt[1:]}){deco}'
+                ek = exc_key(e)
+                if cyclic and ek == 'ValueError@Network.join_recycle_network':
+                    # the recorded finding is: THIS message, on a flowsheet whose true cycles interlock.  Only that input class keeps the recorded key (an exact key, no glob);
+                    # the same raise on a single loop, on disjoint or on properly nested loops, or with another message, is a different (wider) defect and gets its own key
+                    rec.hit('exception:join_recycle_network')
+                    if str(e) == JOIN_MESSAGE and struct == 'interlocking-loops': key = f'{PID}/cyclic/exception/{ek}' + ('/all-orders-of-one-graph' if swp else '')
+                    elif str(e) == JOIN_MESSAGE: key = f'{PID}/cyclic/exception/{ek}/{struct}/back-edges={len(g["back"])}'
+                    else: key = f'{PID}/cyclic/exception/{ek}/other-message/{struct}'
+                    rec.violation(key, what, detail={'traceback': exc_text(e)})
+                else:
+                    rec.exception('cyclic' if cyclic else 'acyclic', e, what=what)
                 return
         finally:
             if prebuilt is None: release(fstreams)
@@ -429,6 +584,8 @@ def run_case(case, rec, prebuilt=None):
     recycles = net.get_all_recycles()
     pos = {}
     for k, u in enumerate(path): pos.setdefault(u, k)
+    # the true streams between the given units, from the case dict (port numbers -> the stream objects the harness itself docked there)
+    stream_edges = [(units[e[0]], units[e[2]], id(units[e[0]].outs[e[1]])) for e in g['edges'] + g['back'] if e[0] in given and e[2] in given]
     if not cyclic:
         rec.check(len(path) == n and len(set(path)) == n, clause, 'each-unit-once' + vt, f'acyclic flowsheet: path {ids} does not list every unit exactly once{deco}')
         bad = [(f'U{a}', f'U{b}') for a, b in true_edges if units[a] in pos and units[b] in pos and pos[units[a]] >= pos[units[b]]]
@@ -443,6 +600,55 @@ def run_case(case, rec, prebuilt=None):
         stray = [repr(r) for r in recycles if id(r) not in docked]
         rec.check(not stray, clause, 'recycle-is-flowsheet-stream' + vt, f'reported recycle(s) {stray[:3]} are not inlets/outlets of the given units; path {ids}{deco}')
         rec.hit('recycle-is-flowsheet-stream')
+        # "a path that contains exactly the given units": each once, also when the flowsheet has cycles (a unit listed twice is simulated twice per pass).  The key carries
+        # the structure of the true cycles: the recorded finding (a unit kept in the outer path after a sub-network took it over) belongs to interlocking loops (rarely nested ones, and disjoint ones of a sub-set)
+        dup = len(path) != len(set(path))
+        if dup:
+            seen_ = set(); twice = []
+            for u in path:
+                if u in seen_ and u.ID not in twice: twice.append(u.ID)
+                seen_.add(u)
+            rec.hit(('sweep:' if swp else '') + 'cyclic:unit-listed-twice')       # what the rate of the follow-up finding (stray recycles between sibling networks that share a unit) is taken over
+            rec.check(False, clause, f'each-unit-once{SW}/{struct}' + vt, f'cyclic flowsheet ({struct}, {len(g["back"])} back-edges): path {ids} lists {twice} more than once{deco}')
+        else: rec.ok(clause)
+        rec.hit('cyclic:each-unit-once')
+        # a recycle is a stream of its own loop: it leaves a unit of the network it is reported for and enters a unit of that network (both of them given units)
+        lnets = loop_networks(net)
+        outside = []; feedlike = True
+        for ln, rs in lnets:
+            inl = set(flatten(ln))
+            for r in rs:
+                src = getattr(r, 'source', None); snk = getattr(r, 'sink', None)
+                if not (src in inl and snk in inl):
+                    outside.append(f'{getattr(src, "ID", src)}->{getattr(snk, "ID", snk)} for loop {sorted(u.ID for u in inl)}')
+                    if src is not None: feedlike = False
+        if not outside: rec.ok(clause)
+        else:
+            # mechanism in the key: what the stray recycle is (a stream without source, i.e. a feed of the flowsheet / another stream), whether the path also lists a unit twice
+            # (sibling networks that share a unit make the library take all streams of that unit, feeds included, as recycles), and the structure of the true cycles
+            rsfx = ('/feed-as-recycle' if feedlike else '/stream-of-other-units') + ('+unit-listed-twice' if dup else '') + '/' + struct
+            rec.check(False, clause, 'recycle-inside-own-loop' + SW + rsfx + vt, f'reported recycle(s) do not connect two units of the network they are reported for: {outside[:3]}; path {ids}{deco}')
+        rec.hit('recycle-inside-own-loop')
+        # the reported recycles cut every true cycle: without them the flowsheet (true graph, from the case dict) is acyclic.  A cycle that carries no recycle is iterated
+        # nowhere, whatever the order of the path (an order-free reading of "follows material flow" for cyclic flowsheets; the streams are identified by object, so parallel
+        # streams between the same two units count separately)
+        rids = {id(r) for r in recycles}
+        rest = [(ua, ub) for ua, ub, sid in stream_edges if sid not in rids]
+        if _acyclic(ordered, rest): rec.ok(clause)
+        else:
+            rec.check(False, clause, f'cycle-without-recycle/{struct}' + vt, f'a true cycle of the flowsheet carries none of the reported recycles {[f"{r.source.ID}->{r.sink.ID}" for r in recycles if getattr(r, "source", None) and getattr(r, "sink", None)]}; path {ids}{deco}')
+        rec.hit('cyclic:cycle-without-recycle')
+        # order inside every network level (not judged when a unit is listed twice: positions are then ambiguous, and the case is already reported above)
+        if not dup:
+            found = []
+            order_inside_networks(net, stream_edges, found)
+            lv = '+'.join(sorted({k for k, _ in found}))
+            if not found: rec.ok(clause)
+            else: rec.check(False, clause, f'order-inside-networks/{lv}/{struct}' + vt, f'the path does not follow the material flow inside its networks: {"; ".join(t for _, t in found[:2])}; path {ids}{deco}')
+            rec.hit('cyclic:order-inside-networks')
+            if lnets and lnets[0][0] is net: rec.hit('cyclic:order-inside-networks:top-level-is-loop')
+        else:
+            rec.refuse(f'order inside the networks of a cyclic path not judged: a unit is listed twice (reported under each-unit-once/{struct})')
         lps = loops(net)
         bad = []
         for a, b in true_edges:
@@ -464,7 +670,11 @@ def run_case(case, rec, prebuilt=None):
                 return seen
             idx_of = {u.ID: k_ for k_, u in enumerate(units)}
             same = all(idx_of[b_] in reach(idx_of[a_]) and idx_of[a_] in reach(idx_of[b_]) for a_, b_ in bad)
-            if same: bsfx = '/ends-on-one-true-cycle'
+            if same:
+                # 'both ends on one true cycle' holds for nearly every misplaced unit of a cyclic flowsheet, so it does not identify the recorded finding.  That one is:
+                # interlocking true cycles AND >= 3 back-edges AND a unit listed twice in the path.  Everything else gets a key of its own (which does not start with the recorded one)
+                if struct == 'interlocking-loops' and len(g['back']) >= 3 and dup: bsfx = '/ends-on-one-true-cycle/interlocking-loops+3-back-edges+unit-listed-twice'
+                else: bsfx = f'/both-ends-on-a-true-cycle/{struct}/back-edges={len(g["back"])}' + ('/unit-listed-twice' if dup else '')
         rec.check(not bad, clause, 'backward-edge-outside-loop' + bsfx + vt, f'streams run against the path order between units that share no recycle loop: {bad[:4]}; path {ids}{deco}')
         if not kind and (len(lps) >= 2 or len(recycles) >= 2): rec.hit('cyclic:nested-or-multi')
     rec.hit(clause)
@@ -485,6 +695,13 @@ REGRESSION = [
     # U0(2->1) -> U1(2->2) -> U2(3->2), U1 -> U0, U2 -> U1, small feed into U0, the largest feed into U2
     {"g": {"units": [[2, 1], [2, 2], [3, 2]], "edges": [[0, 0, 1, 0], [1, 0, 2, 0]], "back": [[1, 1, 0, 1], [2, 0, 1, 1]],
            "feeds": [[2, 1, 4.287], [2, 2, 5.496], [0, 0, 1.0]], "cyclic": True}, "perm": [0, 1, 2]},
+    # the same raise on the smallest interlocking flowsheet found: U0 <-> U1 and U0 <-> U2, one feed into U2
+    {"g": {"units": [[2, 2], [1, 1], [2, 3]], "edges": [[0, 1, 1, 0], [0, 0, 2, 1]], "back": [[1, 0, 0, 0], [2, 0, 0, 1]], "feeds": [[2, 0, 3.252]], "cyclic": True}, "perm": [0, 1, 2]},
+    # a unit listed twice (each-unit-once/interlocking-loops): feed -> U2, U0 -> U1 -> U2, U2 -> U1, U1 -> U0; path U2, [U2, U1, U0]
+    {"g": {"units": [[1, 1], [2, 3], [2, 2]], "edges": [[0, 0, 1, 0], [1, 0, 2, 0]], "back": [[2, 0, 1, 1], [1, 2, 0, 0]], "feeds": [[2, 1, 33.266]], "cyclic": True}, "perm": [0, 1, 2]},
+    # feeds reported as recycles (recycle-inside-own-loop/feed-as-recycle+unit-listed-twice): sibling loop networks that share units
+    {"g": {"units": [[3, 1], [3, 3], [2, 3], [1, 1], [3, 3]], "edges": [[0, 0, 1, 1], [1, 1, 2, 1], [1, 0, 3, 0], [2, 1, 4, 2]], "back": [[3, 0, 0, 2], [2, 0, 1, 0], [4, 1, 2, 0]],
+           "feeds": [[0, 0, 8.102], [0, 1, 4.136], [1, 2, 16.637], [4, 0, 27.286], [4, 1, 8.982]], "cyclic": True}, "perm": [0, 1, 2, 3, 4]},
 ]
 
 
@@ -506,7 +723,7 @@ def sweep(g, perms, rec):
         units, fstreams = build_ex(g)
     try:
         before = _signature(units)
-        for p in perms: _safe({'g': g, 'perm': list(p)}, rec, (units, fstreams))
+        for p in perms: _safe({'g': g, 'perm': list(p), 'sweep': True}, rec, (units, fstreams))
         if _signature(units) != before:
             rec.violation(f'{PID}/harness/flowsheet-changed-by-from_units', 'the connections of a flowsheet differ after Network.from_units calls: the orders of this sweep were not independent cases',
                           case={'g': g, 'perm': list(perms[-1])})
